@@ -88,7 +88,8 @@ long mc_live_bytes(void);               /* bytes currently allocated (ASan stati
 size_t mc_block_size(const void *p);    /* usable/allocated size of a heap block, 0 if unknown */
 int  mc_have_asan(void);
 void mc_poll_sanitizers(void);          /* scan stderr growth for UBSan reports (called by the engine after each case) */
-void mc_allow_exit(int on);             /* harnesses that fork children which must really exit */
+void mc_allow_exit(int on);
+void mc_child_reset(void);              /* in a forked cell: default signal actions, no watchdog, exit allowed — the parent judges the wait status */             /* harnesses that fork children which must really exit */
 /* guarded call from harness code outside the engine's own guard (warm-ups, positive controls):
  * returns 0 if fn returned, else the signal; a crash is recorded as a violation of system 'sysname' */
 int mc_guarded(const char *sysname, const char *what, void (*fn)(void *), void *ctx);
